@@ -43,15 +43,24 @@
 (* DESIGN layer: dyadic_pyramid.fill_scales_for_dyadic_pyramid transcribed  *)
 (* in exponent space (Delays, FactorExp, ChunkExps, NumLevels, UnitFor,     *)
 (* KeyOf, Raises) and the set_info_params decision table (SetInfoParams).   *)
-(* Deviation switches: StopRule "minusDelay" = the code subtracts the axis  *)
-(* delay in the stop criterion, "plusDelay" = conforming; ChunkRule "code"  *)
-(* = anisotropy factor max(0, D - d - L), "delayAware" = D - max(d, L).     *)
+(* Deviation switches (first position = conforming = the code at HEAD):      *)
+(*   StopRule   "plusDelay" | "minusDelay"  the stop criterion adds /        *)
+(*              subtracted the axis delay (fixed by 2aa715b)                 *)
+(*   ChunkRule  "delayAware" | "code"  anisotropy factor D - max(d, L) /     *)
+(*              max(0, D - d - L) (fixed by 73c9bcc)                         *)
+(*   ReduceRule "loop" | "once"  the excess-anisotropy reduction is repeated *)
+(*              until the chunk fits / applied once, then asserted (5958906) *)
+(*   KeyRule    "fallback" | "single"  the key unit falls back to finer      *)
+(*              units until all keys are distinct / only the unit chosen for *)
+(*              the finest axis (0e6f55d)                                    *)
+(*   AssignRule "strict" | "numpy"  see PyramidAssembly (aaf61b3)            *)
 EXTENDS Bits, Integers, TLC
 
-CONSTANTS StopRule, ChunkRule
+CONSTANTS StopRule, ChunkRule, ReduceRule, KeyRule, AssignRule
 
 PA == INSTANCE PyramidAssembly
-        WITH CfgSpace <- {}, cfg <- 0, i <- 0, part <- "", dest <- << >>, level <- << >>
+        WITH CfgSpace <- {}, cfg <- 0, i <- 0, part <- "", dest <- << >>, level <- << >>,
+             AssignRule <- AssignRule
 
 Axes == 1..3
 Pow2(n) == 2 ^ n
@@ -197,13 +206,16 @@ RoundHEInt(num, den) ==
       r == num % den
   IN IF 2 * r > den \/ (2 * r = den /\ q % 2 = 1) THEN q + 1 ELSE q
 Pow10(k) == 10 ^ k
-\* round(p/q * 2^e * 10^m), m in -3..3, as a bit sequence (integer arithmetic
+Mul10(b) == Add(ShiftL(b, 3), ShiftL(b, 1))
+RECURSIVE MulPow10(_, _)
+MulPow10(b, k) == IF k = 0 THEN b ELSE MulPow10(Mul10(b), k - 1)
+\* round(p/q * 2^e * 10^m), m in -3..12, as a bit sequence (integer arithmetic
 \* while everything stays below 2^30, bit sequences beyond)
 Rounded(r, e, m) ==
-  LET n0 == r[1] * Pow10(Max2(m, 0))          \* < 2^22
-      den == r[2] * Pow10(Max2(0 - m, 0))
-  IN IF e <= 8 THEN FromNat(RoundHEInt(n0 * Pow2(e), den))
-     ELSE DivRoundHE(ShiftL(FromNat(n0), e), den)
+  LET den == r[2] * Pow10(Max2(0 - m, 0))
+  IN IF e <= 8 /\ m <= 3
+     THEN FromNat(RoundHEInt(r[1] * Pow10(Max2(m, 0)) * Pow2(e), den))     \* < 2^30
+     ELSE DivRoundHE(ShiftL(MulPow10(FromNat(r[1]), Max2(m, 0)), e), den)
 RECURSIVE DecStr(_)
 DecStr(b) == IF Len(b) <= 30 THEN ToString(ToNat(b))
              ELSE LET dv == DivSmall(b, 10) IN DecStr(dv.q) \o ToString(dv.r)
@@ -227,13 +239,30 @@ UnitFor(c) ==
 CeilLog(size, T) ==
   (CHOOSE x \in 0..30 : size <= Pow2(x) /\ (x = 0 \/ size > Pow2(x - 1))) - T
 
+\* key number of level L in unit ui (minimum resolution of the level)
+KeyNumU(c, d, L, ui) ==
+  LET e == [a \in Axes |-> Max2(0, L - d[a])]
+      a0 == CHOOSE a \in Axes : \A b \in Axes : PowLeq(c.res[a], e[a], c.res[b], e[b])
+  IN Rounded(c.res[a0], e[a0], c.s - UnitExp[ui])
+KeysU(c, d, levels, ui) == [k \in 1..levels |-> KeyNumU(c, d, k - 1, ui)]
+Distinct(sq) == \A x, y \in 1..Len(sq) : x # y => sq[x] # sq[y]
+
 G(c) ==
   LET d == Delays(c)
       raw == MaxOf3([a \in Axes |-> IF StopRule = "plusDelay"
                                     THEN CeilLog(c.size[a], c.T) + d[a]
                                     ELSE CeilLog(c.size[a], c.T) - d[a]])
       cut == IF c.maxs > 0 THEN Min2(raw, c.maxs) ELSE raw
-  IN [d |-> d, D |-> MaxOf3(d), unit |-> UnitFor(c), levels |-> Max2(cut, 1)]
+      levels == Max2(cut, 1)
+      u0 == UnitFor(c)
+      \* KeyRule "fallback": the first unit from u0 on (towards finer units)
+      \* that gives pairwise distinct keys; 0 = none (NotImplementedError)
+      k0 == IF u0 = 0 THEN << >> ELSE KeysU(c, d, levels, u0)
+      U == {ui \in (u0 + 1)..6 : Distinct(KeysU(c, d, levels, ui))}
+      unit == IF u0 = 0 \/ KeyRule = "single" \/ Distinct(k0) THEN u0
+              ELSE IF U = {} THEN 0 ELSE CHOOSE ui \in U : \A x \in U : ui <= x
+  IN [d |-> d, D |-> MaxOf3(d), unit |-> unit, levels |-> levels,
+      keys |-> IF unit = 0 THEN << >> ELSE IF unit = u0 THEN k0 ELSE KeysU(c, d, levels, unit)]
 NumLevels(c, g) == g.levels
 
 FactorExps(c, g, L) == [a \in Axes |-> Max2(0, L - g.d[a])]
@@ -242,11 +271,16 @@ FactorExps(c, g, L) == [a \in Axes |-> Max2(0, L - g.d[a])]
 Aniso0(c, g, L) ==
   [a \in Axes |-> IF ChunkRule = "delayAware" THEN Max2(0, g.D - Max2(g.d[a], L))
                   ELSE Max2(0, g.D - g.d[a] - L)]
-Aniso(c, g, L) ==
-  LET A == Aniso0(c, g, L)
-      ex == Sum3(A) - 3 * c.T
+ReduceOnce(A, T) ==
+  LET ex == Sum3(A) - 3 * T
       nz == Cardinality({a \in Axes : A[a] # 0})
-  IN IF ex > 0 THEN [a \in Axes |-> Max2(A[a] - CeilDiv(ex, nz), 0)] ELSE A
+  IN [a \in Axes |-> Max2(A[a] - CeilDiv(ex, nz), 0)]
+RECURSIVE ReduceLoop(_, _)
+ReduceLoop(A, T) == IF Sum3(A) - 3 * T > 0 THEN ReduceLoop(ReduceOnce(A, T), T) ELSE A
+Aniso(c, g, L) ==
+  LET A == Aniso0(c, g, L) IN
+  IF Sum3(A) - 3 * c.T <= 0 THEN A
+  ELSE IF ReduceRule = "loop" THEN ReduceLoop(A, c.T) ELSE ReduceOnce(A, c.T)
 LevelRaises(c, g, L) ==       \* the two assertions of downscale_info
   LET S == Sum3(Aniso(c, g, L)) IN
   S > 3 * c.T \/ c.T - ((S + 1) \div 3) < 0
@@ -255,12 +289,7 @@ ChunkExps(c, g, L) ==
       base == c.T - ((Sum3(A) + 1) \div 3)
   IN [a \in Axes |-> base + A[a]]
 
-MinAxisAt(c, g, L) ==
-  LET e == FactorExps(c, g, L) IN
-  CHOOSE a \in Axes : \A b \in Axes : PowLeq(c.res[a], e[a], c.res[b], e[b])
-KeyNum(c, g, L) ==
-  LET a == MinAxisAt(c, g, L) IN
-  Rounded(c.res[a], Max2(0, L - g.d[a]), c.s - UnitExp[g.unit])
+KeyNum(c, g, L) == g.keys[L + 1]
 KeyOf(c, g, L) == DecStr(KeyNum(c, g, L)) \o UnitName[g.unit]
 
 \* ---- the generator -------------------------------------------------------
